@@ -89,6 +89,8 @@ Projection(h) == [n     |-> Cardinality(TipAncestry(h)),
 
 (* Renaming revisions (pi: a bijection on the revision numbers that keeps parents smaller). *)
 Perms(n) == {f \in [1..n -> 1..n] : \A i, j \in 1..n : i # j => f[i] # f[j]}
+\* exchanging two neighbouring numbers; any two valid numberings of a graph are connected by such steps
+Transpositions(n) == {[i \in 1..n |-> IF i = k THEN k + 1 ELSE IF i = k + 1 THEN k ELSE i] : k \in 1..(n - 1)}
 Inv(f, n) == [j \in 1..n |-> CHOOSE i \in 1..n : f[i] = j]
 ValidPerm(h, f) == \A r \in RevsOf(h) : \A i \in DOMAIN h.P[r] : f[h.P[r][i]] < f[r]
 Relabel(h, f) == LET n == NRevs(h) g == Inv(f, n) IN
